@@ -240,6 +240,7 @@ func runC05(c *Checker) {
 	ruleRETRY(c)
 	ruleCallbackLocks(c, "DUPLEX")
 	ruleHandshakeDeadline(c, "WRAP")
+	ruleDeadlineMapping(c, "WRAP")
 	ruleDUPLEX(c)
 	// LAYERS: the end-to-end statement is the composition of the layers below; it fails as soon as
 	// one of them does. The obligations of the delivery (C01), progress (C06), concurrency (C18),
